@@ -53,11 +53,11 @@ theorem flatMap_pxBytes_length (bpp : Nat) (l : List Px) : (l.flatMap (pxBytes b
 /-- **payload of the cursor rectangle**: RichCursor — the cursor's pixels in order, then its mask
 bytes; XCursor — the six colour bytes (high bytes of the 16-bit colours), the source bitmap, the
 mask; with the sizes the protocol prescribes -/
-theorem shapePayload_exact {bpp : Nat} {r : Bool} {c : Cursor} {pl : List UInt8} (hc : c.WF)
-    (h : shapePayload bpp r c = some pl) :
+theorem shapePayload_exact {w : Wire} {r : Bool} {c : Cursor} {pl : List UInt8} (hc : c.WF)
+    (h : shapePayload w r c = some pl) :
     (r = true → ∃ rich, c.rich = some rich ∧
-        pl = rich.toList.flatMap (pxBytes bpp) ++ c.mask.toList ∧
-        pl.length = c.w * c.h * bpp + rowBytes c.w * c.h) ∧
+        pl = (rich.toList.map w.tr).flatMap (pxBytes w.bpp) ++ c.mask.toList ∧
+        pl.length = c.w * c.h * w.bpp + rowBytes c.w * c.h) ∧
     (r = false → ∃ src, c.source = some src ∧
         pl = [UInt8.ofNat (c.foreR / 256), UInt8.ofNat (c.foreG / 256), UInt8.ofNat (c.foreB / 256),
               UInt8.ofNat (c.backR / 256), UInt8.ofNat (c.backG / 256), UInt8.ofNat (c.backB / 256)]
@@ -82,7 +82,7 @@ theorem shapePayload_exact {bpp : Nat} {r : Bool} {c : Cursor} {pl : List UInt8}
       have := tabulate?_getElem hpx
       subst this
       refine ⟨px, rfl, e.symm, ?_⟩
-      rw [← e, List.length_append, flatMap_pxBytes_length, Array.length_toList, Array.length_toList,
+      rw [← e, List.length_append, flatMap_pxBytes_length, List.length_map, Array.length_toList, Array.length_toList,
         hc.richSz px hr, hc.maskSz]
   | false =>
     simp only [Bool.false_eq_true, if_false] at h
@@ -101,11 +101,11 @@ theorem shapePayload_exact {bpp : Nat} {r : Bool} {c : Cursor} {pl : List UInt8}
       omega
 
 /-- the cases of rfbSendCursorShape for an installed cursor -/
-theorem shapeCore_some {v : Variant} {f : Format} {bpp : Nat} {c0 : Cursor} {r : Bool}
-    {c' : Option Cursor} {m : List UInt8} (h : shapeCore v f bpp (some c0) r = some (c', m)) :
+theorem shapeCore_some {v : Variant} {f : Format} {bpp : Nat} {w : Wire} {c0 : Cursor} {r : Bool}
+    {c' : Option Cursor} {m : List UInt8} (h : shapeCore v f bpp w (some c0) r = some (c', m)) :
     ∃ c, c' = some c ∧ convertFor v f bpp r c0 = some c ∧
       ((isEmptyCursor c = some true ∧ m = rectHeader 0 0 0 0 (if r then encRichCursor else encXCursor)) ∨
-       (isEmptyCursor c = some false ∧ shapeFits bpp r c = true ∧ ∃ pl, shapePayload bpp r c = some pl ∧
+       (isEmptyCursor c = some false ∧ shapeFits w r c = true ∧ ∃ pl, shapePayload w r c = some pl ∧
           m = rectHeader c.xhot c.yhot c.w c.h (if r then encRichCursor else encXCursor) ++ pl)) := by
   unfold shapeCore at h
   simp only [] at h
@@ -117,7 +117,7 @@ theorem shapeCore_some {v : Variant} {f : Format} {bpp : Nat} {c0 : Cursor} {r :
     exact ⟨c, h.1.symm, hconv, Or.inl ⟨hemp, h.2.symm⟩⟩
   | false =>
     simp only [Bool.false_eq_true, if_false] at h
-    cases hfit : shapeFits bpp r c with
+    cases hfit : shapeFits w r c with
     | false => simp [hfit] at h
     | true =>
       simp only [hfit, Bool.not_true, Bool.false_eq_true, if_false] at h
@@ -126,19 +126,19 @@ theorem shapeCore_some {v : Variant} {f : Format} {bpp : Nat} {c0 : Cursor} {r :
       exact ⟨c, e.1.symm, hconv, Or.inr ⟨hemp, hfit, pl, hpl, e.2.symm⟩⟩
 
 /-- without an installed cursor an empty cursor rectangle is sent -/
-theorem shapeCore_none (v : Variant) (f : Format) (bpp : Nat) (r : Bool) :
-    shapeCore v f bpp none r = some (none, rectHeader 0 0 0 0 (if r then encRichCursor else encXCursor)) := rfl
+theorem shapeCore_none (v : Variant) (f : Format) (bpp : Nat) (w : Wire) (r : Bool) :
+    shapeCore v f bpp w none r = some (none, rectHeader 0 0 0 0 (if r then encRichCursor else encXCursor)) := rfl
 
 /-- cursors up to 64×64 at up to 4 bytes per pixel always fit the update buffer (so the
 `return FALSE; /* FIXME */` path of rfbSendCursorShape is not reachable for them).  Depends on the
 regenerated `UPDATE_BUF_SIZE` and header sizes. -/
-theorem shapeFits_of_le {bpp : Nat} {r : Bool} {c : Cursor} (hw : c.w ≤ 64) (hh : c.h ≤ 64) (hb : bpp ≤ 4) :
-    shapeFits bpp r c = true := by
+theorem shapeFits_of_le {w : Wire} {r : Bool} {c : Cursor} (hw : c.w ≤ 64) (hh : c.h ≤ 64) (hb : w.bpp ≤ 4) :
+    shapeFits w r c = true := by
   unfold shapeFits
   have h1 : rowBytes c.w ≤ 8 := by unfold rowBytes; omega
   have h2 : rowBytes c.w * c.h ≤ 8 * 64 := Nat.mul_le_mul h1 hh
   have h3 : c.w * c.h ≤ 64 * 64 := Nat.mul_le_mul hw hh
-  have h4 : c.w * c.h * bpp ≤ 64 * 64 * 4 := Nat.mul_le_mul h3 hb
+  have h4 : c.w * c.h * w.bpp ≤ 64 * 64 * 4 := Nat.mul_le_mul h3 hb
   simp only [UPDATE_BUF_SIZE, sz_rfbFramebufferUpdateMsg,
     sz_rfbFramebufferUpdateRectHeader, sz_rfbXCursorColors]
   apply decide_eq_true
